@@ -108,6 +108,56 @@ def runSched (R A : Crit) (y : Sys) : List Bool → Sys
   | [] => y
   | b :: bs => runSched R A (if b then pickR R A y else pickA R A y) bs
 
+/-! ### two `receive` calls on one connection (RTP-socket and RTCP-socket reader tasks of a non-mux call)
+
+Executable only (compared with the real code for every forced schedule by the harness's `race` stream);
+`latch_api_serializable` does NOT cover this machine. -/
+
+/-- one granule of a receive thread, given whether the other thread holds the mutex -/
+def recvStep (R : Crit) (st : St) (ph : RPh) (otherHolds : Bool) : St × RPh :=
+  match ph with
+  | .start => if st.rtpLatched then (st, .early) else (st, .waiting)
+  | .waiting =>
+    if otherHolds then (st, .waiting)
+    else if 1 ≥ R.len st then (R.full st, .finished) else (R.mid st 1, .inCrit 1 st)
+  | .inCrit j t =>
+    if j + 1 ≥ R.len t then (R.full t, .finished) else (R.mid t (j + 1), .inCrit (j + 1) t)
+  | ph => (st, ph)
+
+structure Sys2 where
+  st : St
+  r1 : RPh
+  r2 : RPh
+  b1 : Bool
+  b2 : Bool
+
+/-- release thread 1 (`first = true`) or 2 from its yield point; same "blocked, then handed the mutex" rule -/
+def pick2 (R1 R2 : Crit) (first : Bool) (y : Sys2) : Sys2 :=
+  if first then
+    if y.b1 then y
+    else if rWaiting y.r1 && rHolds y.r2 then { y with b1 := true }
+    else
+      let (st', ph') := recvStep R1 y.st y.r1 (rHolds y.r2)
+      let y1 : Sys2 := { y with st := st', r1 := ph' }
+      if y1.b2 && !rHolds y1.r1 then
+        let (st2, ph2) := recvStep R2 y1.st y1.r2 false
+        { y1 with st := st2, r2 := ph2, b2 := false }
+      else y1
+  else
+    if y.b2 then y
+    else if rWaiting y.r2 && rHolds y.r1 then { y with b2 := true }
+    else
+      let (st', ph') := recvStep R2 y.st y.r2 (rHolds y.r1)
+      let y1 : Sys2 := { y with st := st', r2 := ph' }
+      if y1.b1 && !rHolds y1.r2 then
+        let (st2, ph2) := recvStep R1 y1.st y1.r1 false
+        { y1 with st := st2, r1 := ph2, b1 := false }
+      else y1
+
+def runSched2 (R1 R2 : Crit) (y : Sys2) : List Bool → Sys2
+  | [] => y
+  | b :: bs => runSched2 R1 R2 (pick2 R1 R2 b y) bs
+
 /-! ### the concrete critical sections (as in `conn.rs` after the lock-discipline fix) -/
 
 /-- the RTP arm of `receive` from `recv:before-lock` on, for a packet `(a, ssrc, seq, ts, m)` that
